@@ -58,6 +58,10 @@ def corpus():
     d = P.new_vsys(); d['grp'] = {'g0': ['NET_10.1.7.0_24', 'NET_10.1.4.0_24', 'NET_10.1.2.0_24'], 'g0b': ['IP_10.1.1.11']}
     d['rules'] = [R('r1', 'g0', 'deny'), R('r2', 'g0b')]; P.finish_objects(d)
     out.append(dict(tgt=[('vsys1', t)], dev=[('vsys1', d)], edits=[['corpus-group-transfer-cancelled']]))
+    # a service of the same name and port, of the other protocol (services are compared by their definitions)
+    t = P.new_vsys(); t['rules'] = [dict(R('r1', 'IP_10.1.1.10'), srv=['udp 53'])]; P.finish_objects(t)
+    d = P.copy_vsys(t); d['svc']['udp 53'] = 'tcp 53'
+    out.append(dict(tgt=[('vsys1', t)], dev=[('vsys1', d)], edits=[['corpus-service-other-protocol']]))
     return out
 
 
